@@ -34,8 +34,9 @@ def make_dae():
     from Solverz.equation.param import TimeSeriesParam
     # as in generated code, a time-series parameter stays an object in the mapping and is read with get_v_t(t); `u` writes its series
     # into element 1 of a vector parameter, element 0 is read from the stored value at every call
-    F = lambda t, y, p: np.array([-p["k"][0] * y[0] ** 3 + y[1] + np.cos(t) + 0.1 * np.sum(p["u"].get_v_t(t)), y[1] - np.sin(y[0])])
-    J = lambda t, y, p: csc_array(np.array([[-3 * p["k"][0] * y[0] ** 2, 1.0], [-np.cos(y[0]), 1.0]]))
+    # the algebraic equation is nonlinear in the algebraic variable: the projection of an inconsistent start takes several iterations
+    F = lambda t, y, p: np.array([-p["k"][0] * y[0] ** 3 + y[1] + np.cos(t) + 0.1 * np.sum(p["u"].get_v_t(t)), y[1] + 0.3 * y[1] ** 3 - np.sin(y[0])])
+    J = lambda t, y, p: csc_array(np.array([[-3 * p["k"][0] * y[0] ** 2, 1.0], [-np.cos(y[0]), 1.0 + 0.9 * y[1] ** 2]]))
     return nDAE(M, F, J, {"k": np.array([1.0]),
                           "u": TimeSeriesParam("u", v_series=[1.0, 3.0, 2.0], time_series=[-2.0, 1.0, 4.0], value=[0.5, 1.0], index=[1])})
 
